@@ -6,7 +6,8 @@ LEVEL = "proof"
 DRIVER = {"srcs": ["harness/c09_driver.cc"], "sdk": False}
 TRIVIAL_TAGS = {"ext_empty", "inj_invalid", "rt_invalid"}
 ASSUMPTIONS = [
-    "SpanContext objects handed to Inject are built by the driver from (trace id, span id, flags byte, TraceState::FromHeader(h)); the model builds the same with its from_header (tied by C14)",
+    "SpanContext objects handed to Inject are built by the driver from (trace id, span id, flags byte, TraceState::FromHeader(h)); the model builds the same with its from_header (tied by C14); the trace-state leg of the round trip uses C14's header_roundtrip/from_header_wf (coq/C14/Proofs.v)",
+    "theorems about contexts assume 16-byte trace ids and 8-byte span ids (the C++ types are fixed-size arrays)",
     "'never crashes or reads out of bounds' is evidenced by the ASan/UBSan build on the generated malformed stream (header values live in exact-size heap blocks without a terminating NUL), not by a theorem",
     "std::regex / isspace behave as modelled in the C locale",
 ]
@@ -150,8 +151,9 @@ def neighbours(rng, cases):
                 out.append(" ".join([t[0], t[1], t[2], str(f), t[4]]))
     return out
 
-LEVEL_TEXT = ("Theorems in coq/Properties_C09.v about the Gallina model of HttpTraceContext (inject shape, inject/extract round trip for every "
-              "context, extraction = the positional W3C grammar for every byte string, invalid => caller's context); the model is tied to the C++ on "
+LEVEL_TEXT = ("Theorems in coq/Properties_C09.v about the Gallina model of HttpTraceContext (inject shape through the digit tables read from "
+              "trace_flags.h/trace_id.h/span_id.h, inject/extract round trip for every context incl. the trace state, extraction = the positional W3C "
+              "grammar for every byte string, invalid => caller's context, never injected/installed, model_meets_spec); the model is tied to the C++ on "
               "every run by running the extracted model and the rebuilt ASan/UBSan driver on the same generated headers and by running the extracted "
               "SPEC on the implementation's outputs.")
 LEVEL_NOTE = ("Trusted: Coq kernel, extraction, ocaml/driver.ml, the C++ driver, the generator, tools/extract_consts.py; the model is hand-written "
